@@ -48,13 +48,18 @@ type M struct {
 	Now    int64
 	D      int64 // default expiration as stored (raw)
 	CB     bool  // an evicted callback is installed
+	CBTag  int   // which one (1 = the adapter's first callback, 2 = its second); 0 = unknown/not tracked
 	Ents   []Ent
 	ColdN  int
 	ColdOn bool
 }
 
 func New(nkeys int, now, d int64, cb bool) *M {
-	return &M{Now: now, D: d, CB: cb, Ents: make([]Ent, nkeys)}
+	m := &M{Now: now, D: d, CB: cb, Ents: make([]Ent, nkeys)}
+	if cb {
+		m.CBTag = 1
+	}
+	return m
 }
 
 func (m *M) Clone() *M {
@@ -191,6 +196,20 @@ func (m *M) touch(e *Ent) {
 	}
 }
 
+// tagOK: callbacks fired during a call must all have gone to the callback in force (sequential engine).
+func (m *M) tagOK(r *Res) error {
+	if m.CBTag == 0 || len(r.Ev) == 0 || m.CBFlip {
+		return nil
+	}
+	if m.CBTag == 2 && r.EvB != len(r.Ev) {
+		return errf("%d of %d callbacks went to a callback that had been replaced by SetEvictedCallback", len(r.Ev)-r.EvB, len(r.Ev))
+	}
+	if m.CBTag == 1 && r.EvB != 0 {
+		return errf("%d callbacks went to a callback other than the one in force", r.EvB)
+	}
+	return nil
+}
+
 func noEv(r *Res) error {
 	if len(r.Ev) != 0 {
 		return errf("evicted callback fired %v by a call that must never fire it", r.Ev)
@@ -226,6 +245,11 @@ func (m *M) Step(o *Op, r *Res) error {
 	}
 	if chk && r.Panic != "" {
 		return errf("panic: %s", r.Panic)
+	}
+	if chk {
+		if err := m.tagOK(r); err != nil {
+			return err
+		}
 	}
 	var e *Ent
 	if o.Key >= 0 && o.Key < len(m.Ents) {
@@ -269,9 +293,6 @@ func (m *M) Step(o *Op, r *Res) error {
 			} else {
 				if err := wantAbsent(r); err != nil {
 					return err
-				}
-				if r.T != 0 {
-					return errf("reported absent with non-zero time/ttl %d", r.T)
 				}
 			}
 		}
@@ -321,8 +342,9 @@ func (m *M) Step(o *Op, r *Res) error {
 				if err := wantVal(r, e.V, true); err != nil {
 					return err
 				}
-			} else if err := wantVal(r, o.Val, false); err != nil {
-				return err
+			} else if r.OK || (r.V != o.Val && r.V != 0) {
+				// not loaded: the flag is pinned, the companion value is the given value (documented) or zero
+				return errf("returned (%d,%v), expected (%d,false) or (0,false)", r.V, r.OK, o.Val)
 			}
 		}
 		m.store(o.Key, o.Val, m.ttlOf(o))
@@ -587,6 +609,11 @@ func (m *M) Step(o *Op, r *Res) error {
 				return err
 			}
 		}
+		// a traversal touches every entry: whether it cleans the expired ones it skips is as
+		// unspecified as for a point read
+		for i := range m.Ents {
+			m.touch(&m.Ents[i])
+		}
 	case PVisitKey:
 		// One key of a traversal: visited only if unexpired when the traversal began (m.Now);
 		// must be visited if it stays present and unexpired until the traversal returns (m.StampNow).
@@ -610,6 +637,7 @@ func (m *M) Step(o *Op, r *Res) error {
 				return errf("traversal skipped k%d which is present and unexpired", o.Key)
 			}
 		}
+		m.touch(e)
 	case PColdVisit, PColdLoad:
 		if chk {
 			if (r.T == 1) != m.ColdOn {
@@ -635,13 +663,21 @@ func (m *M) Step(o *Op, r *Res) error {
 			}
 		}
 	case CDefaultExp:
-		if chk && r.T != m.D {
-			return errf("DefaultExpiration() = %d, expected %d", r.T, m.D)
+		// the properties pin how entries expire, not the getter: any two defaults below 1ns behave alike
+		if chk && r.T != m.D && !(r.T < 1 && m.D < 1) {
+			return errf("DefaultExpiration() = %d, but entries stored with the default sentinel must behave as with %d", r.T, m.D)
 		}
 	case CSetDefaultExp:
 		m.D = o.D
 	case CSetCallback:
 		m.CB = o.On
+		m.CBTag = 0
+		if o.On {
+			m.CBTag = 1
+			if o.N == 2 {
+				m.CBTag = 2
+			}
+		}
 	case HAdvance:
 		m.Now += o.D
 	case HBulkSet:
@@ -778,9 +814,7 @@ func (m *M) checkVisit(o *Op, r *Res) error {
 	if o.K != CItems && o.N > 0 && o.N < want {
 		want = o.N
 	}
-	if o.K == CRange && o.N < 0 {
-		want = 0 // nil visitor: nothing may happen
-	}
+
 	if len(r.Vis) != want {
 		return errf("%d pairs visited, expected %d (live entries %d, stop after %d)", len(r.Vis), want, len(live), o.N)
 	}
